@@ -215,13 +215,17 @@ def wire_shapes() -> dict[str, bool]:
     out["hdrDrainsAfterHeader"] = any(isinstance(s, ast.Expr) and "_drain_stream" in _calls(s) for s in h.body)
     r = _func(tree, "_read_request")
     first_drain = next((i for i, s in enumerate(r.body) if isinstance(s, ast.Expr) and _calls(s) == ["_drain_stream"]), None)
-    first_raise = next((i for i, s in enumerate(r.body) if _has(s, ast.Raise)), None)
+    first_raise = next((i for i, s in enumerate(r.body) if _has(s, ast.Raise) and not isinstance(s, ast.Try)), None)
     out["requestDrainedBeforeValidation"] = first_drain is not None and first_raise is not None and first_drain < first_raise
+    # the first read of the request stream: StopIteration (a stream with no batch) is turned into an RpcError reply
+    ft = [t for t in r.body if isinstance(t, ast.Try) and "reader.read_next_batch_with_custom_metadata" in _calls(t.body)]
+    h0 = _handler(ft[0], "StopIteration") if len(ft) == 1 else None
+    out["emptyRequestReplies"] = h0 is not None and isinstance(h0.body[-1], ast.Raise) and "RpcError" in _calls(h0.body)
     return out
 
 
 MODEL_FIELDS = ["drainVersion", "drainParams", "drainInit", "drainUnknown", "initChecks", "cliDrainOverErr", "cliDrainSurvivesCb",
-                "unaryDrainOnCb", "hdrDrainOnCb", "hdrAbortCloses"]
+                "unaryDrainOnCb", "hdrDrainOnCb", "hdrAbortCloses", "emptyRequestReplies"]
 
 
 def emit() -> dict[str, str]:
@@ -246,6 +250,7 @@ structure Shape where
   unaryDrainOnCb : Bool      -- _read_unary_response drains when the callback raises
   hdrDrainOnCb : Bool        -- _read_header_batch drains when the callback raises
   hdrAbortCloses : Bool      -- the stream caller closes the server-side stream when the header read is aborted
+  emptyRequestReplies : Bool -- _read_request answers a request stream without any batch (else StopIteration ends `serve`)
 deriving Repr, DecidableEq
 
 def shape : Shape := {{ {fields} }}
